@@ -510,7 +510,7 @@ func TestC07_canonical(t *testing.T) {
 	if !ev.Replaying() {
 		calibrate(t, col)
 	}
-	ev.Check(t, col, ev.Scale(nEco*1500, nEco*15000), genCanon(col), propC07)
+	ev.Check(t, col, ev.Scale(nEco*4000, nEco*40000), genCanon(col), propC07)
 }
 
 // calibrate checks the reference comparators against the repository's own fixtures on the
